@@ -182,6 +182,9 @@ class Writer:
                 if is_ba:
                     return F(val)
                 v_ = unsnap(val)
+                if v_.op == "comp" and v_.args[0] in ("list", "gen", "tuple", "generator"):
+                    # L += [f(x) for x in xs]: one element per item of xs, in order
+                    return [("repeat", v_.args[3], F(v_.args[1]), v_.args[2])]
                 if v_.op == "ref":
                     o2 = self._heap_obj(v_)
                     items = list(o2.items) if o2 is not None and o2.exact and o2.kind in ("list", "tuple") else None
@@ -395,7 +398,12 @@ def extract_readers(ex, events: List[Event], reader_cls_names=("BytesReader",), 
         if e.kind == "extcall" and e.d["name"] == "int.from_bytes" and e.d["args"]:
             src = unsnap(e.d["args"][0])
             f = by_result.get(src.uid)
-            if f is not None:
+            sg = (e.d.get("kwargs") or {}).get("signed")
+            if sg is None and len(e.d["args"]) > 2:
+                sg = e.d["args"][2]
+            if f is not None and sg is not None and not (is_const(sg) and not cval(sg)):
+                f.signed = True  # two's complement reading: not the unsigned value of the field
+            elif f is not None:
                 f.int_views.append(e.d["result"])
                 if len(e.d["args"]) > 1 and is_const(e.d["args"][1]):
                     f.order = cval(e.d["args"][1])
